@@ -23,22 +23,22 @@ func (r Result) String() string { return [...]string{"unsat", "sat", "unknown"}[
 // Solver is one long-lived solver process. Definitions are global
 // (:global-declarations), assertions follow a push/pop stack.
 type Solver struct {
-	Kind    string // z3 | z3-new | cvc5 | cvc5-int
-	cmd     *exec.Cmd
-	in      io.WriteCloser
-	out     *bufio.Reader
-	ctx     *Ctx
-	defined map[int]bool
-	declUF  map[string]bool
-	seq     int
-	depth   int
-	Queries int
-	Time    time.Duration
-	Errors  []string
-	SendTime time.Duration
+	Kind      string // z3 | z3-new | cvc5 | cvc5-int
+	cmd       *exec.Cmd
+	in        io.WriteCloser
+	out       *bufio.Reader
+	ctx       *Ctx
+	defined   map[int]bool
+	declUF    map[string]bool
+	seq       int
+	depth     int
+	Queries   int
+	Time      time.Duration
+	Errors    []string
+	SendTime  time.Duration
 	SentBytes int64
-	Log     io.Writer
-	tmo     int
+	Log       io.Writer
+	tmo       int
 }
 
 func NewSolver(kind string, ctx *Ctx, timeoutMs int) (*Solver, error) {
